@@ -33,3 +33,4 @@ func PickStr(label string, a, b string) string     { return a }
 func IsNonNilPointer(v any) bool                   { return false }
 func At(pos string)                                {}
 func HashSum(kind string, data []byte) []byte      { return nil }
+func Reach(label string)                           {}
